@@ -12,7 +12,7 @@ CONSTANTS
   Shard = FALSE
   Markers = FALSE
   MaxFail = 1
-  MaxCalls = 4
+  MaxCalls = 3
   BugH3 = FALSE
   BugAlias = FALSE
   BugErrLeak = FALSE
